@@ -90,7 +90,7 @@ func HarnessC08Offered() {
 	}
 
 	s.FaultAt = zz.Choose("fault.at", 10) - 1
-	s.FaultKind = 1 + zz.Choose("fault.kind", 2)
+	s.FaultKind = 1 + zz.Choose("fault.kind", 3)
 	r := NewReconciler(NewClientApplicator(s), WithControllerEngine(eng))
 	res, err := r.Reconcile(context.Background(), reconcile.Request{NamespacedName: types.NamespacedName{Name: zzXRDName}})
 	if s.Faulted {
